@@ -225,8 +225,10 @@ class DULServiceProvider(threading.Thread):
         if self.raw_pdu and self._process_incoming():
             return True
 
-        # check if something comes in the client socket
-        if select.select([self.dul_socket], [], [], 0.05)[0]:
+        # check if something comes in the client socket, without waiting for it when there
+        # is something to send
+        timeout = 0 if self.dimse_gen or not self.from_service_user.empty() else 0.05
+        if select.select([self.dul_socket], [], [], timeout)[0]:
             if self._check_incoming_pdu():
                 return True
 
